@@ -13,8 +13,9 @@ def keyStr (k : Key) : String := String.intercalate "/" (todayPrefix k.ns ++ [k.
 def parseReq (j : Json) : Option Req := do
   let k ← kindOf (jStr j "kind")
   match k with
-  | .burn b => pure (.burn { kind := b, id := jStr j "id", want := jStr j "want", pre := jBool j "pre", post := jBool j "post" })
-  | .mark m => pure (.mark { kind := m, id := jStr j "id" })
+  | .burn b => pure (.burn { kind := b, id := jStr j "id", want := jStr j "want", pre := jBool j "pre", post := jBool j "post",
+                              failGet := jStr j "fail" == "get", failDel := jStr j "fail" == "del" })
+  | .mark m => pure (.mark { kind := m, id := jStr j "id", failGet := jStr j "fail" == "get", failSet := jStr j "fail" == "set" })
 
 /-- configuration for one op line: today's source facts + the back-end the harness ran on + optional TTL override -/
 def cfgFor (j : Json) : Cfg :=
@@ -52,16 +53,16 @@ def delRes (cfg : Cfg) (w : World) (k : Key) : String :=
 
 def didOp (cfg : Cfg) (w : World) (t : Thread) : String :=
   match t with
-  | .burn _ pc _ =>
+  | .burn r pc _ =>
     (match pc with
-     | .atCall => (if cfg.gad = .singleCall then "getdel" else "get") ++ hitMiss cfg w t.key
-     | .atDel _ => delRes cfg w t.key
-     | .atBurn _ => delRes cfg w t.key
+     | .atCall => (if cfg.gad = .singleCall then "getdel" else "get") ++ (if r.failGet then ":fail" else hitMiss cfg w t.key)
+     | .atDel _ => if r.failDel then "del:fail" else delRes cfg w t.key
+     | .atBurn _ => if r.failDel then "del:fail" else delRes cfg w t.key
      | _ => "")
   | .mark r pc _ =>
     (match pc with
-     | .atCall => (if cfg.mark r.kind = .putIfAbsent then "putabsent" else "get") ++ hitMiss cfg w t.key
-     | .atPut _ => "set:ok"
+     | .atCall => (if cfg.mark r.kind = .putIfAbsent then "putabsent" else "get") ++ (if r.failGet then ":fail" else hitMiss cfg w t.key)
+     | .atPut _ => if r.failSet then "set:fail" else "set:ok"
      | _ => "")
 
 def traceStep (cfg : Cfg) (w : World) (i : Nat) : World × String :=
